@@ -107,6 +107,51 @@ def rule_regs_source(ctx, R="C04/regs-source"):
                 sp = core(d["stack_pointer"])
                 ctx.check(sp[0] == "field" and sp[2] == "rsp" and nosite(strip(sp[1])) == nosite(strip(d["regs"])), R, ("field", "stack_pointer"), b.where(bi, si),
                           "stack_pointer <- regs.rsp of the same register set", "stack_pointer <- %s" % show(sp)[:120])
+    # the register sets are stored as captured: nothing takes a mutable reference to, or stores into, the locals that hold what
+    # getregset/getregs/getfpregset/getfpregs returned (an "adjustment" between capture and serialisation is not what the thread had)
+    holders = set()
+    for bi_, blk_ in enumerate(b.blocks):
+        for si_, st_ in enumerate(blk_["stmts"]):
+            if st_["k"] == "assign" and not st_["p"]["proj"]:
+                ty_ = b.locals[st_["p"]["l"]]["ty"]
+                if ty_ in ("libc::user_regs_struct", "libc::user_fpregs_struct"):
+                    holders.add(st_["p"]["l"])
+    touched = []
+    for bi_, blk_ in enumerate(b.blocks):
+        if blk_["cleanup"]:
+            continue
+        for si_, st_ in enumerate(blk_["stmts"]):
+            if st_["k"] != "assign":
+                continue
+            if st_["p"]["l"] in holders and st_["p"]["proj"]:
+                touched.append(("a field of the captured registers is overwritten", bi_, si_))
+            r_ = st_["r"]
+            if r_["k"] == "ref" and r_["bk"] == "mut" and r_["p"]["l"] in holders:
+                touched.append(("the captured registers are borrowed mutably", bi_, si_))
+            if r_["k"] == "addr" and r_.get("mut") and r_["p"]["l"] in holders:
+                touched.append(("a raw mutable pointer to the captured registers is taken", bi_, si_))
+    ctx.floor(R, "locals holding a captured register set", len(holders), 2)
+    ctx.check(not touched, R, "stored-as-captured", b.where(touched[0][1], touched[0][2]) if touched else b.where(0),
+              "the captured register sets reach the ThreadInfo unmodified (no store into them, no &mut of them)",
+              "%s between capture and serialisation (%d place(s)): the recorded context is then not the state the thread had" % (touched[0][0] if touched else "", len(touched)))
+    # ... and stay so afterwards: nowhere in the crate is a field of a ThreadInfo (regs, fpregs, dregs, stack_pointer) stored to or
+    # borrowed mutably after construction
+    late = []
+    for body in ctx.prog.bodies:
+        for bi_, blk_ in enumerate(body.blocks):
+            if blk_["cleanup"]:
+                continue
+            for si_, st_ in enumerate(blk_["stmts"]):
+                if st_["k"] != "assign":
+                    continue
+                for pl, kind in ((st_["p"], "store"), (st_["r"].get("p") if st_["r"]["k"] == "ref" and st_["r"].get("bk") == "mut" else None, "&mut")):
+                    if not pl:
+                        continue
+                    for e_ in pl["proj"]:
+                        if e_["k"] == "field" and e_.get("n") in ("regs", "fpregs", "dregs", "stack_pointer") and norm(e_.get("adt") or "").endswith("ThreadInfoX86"):
+                            late.append("%s of .%s in %s (%s)" % (kind, e_["n"], body.short.split("::")[-1], body.where(bi_, si_)))
+    ctx.check(not late, R, "immutable-after-capture", None, "no field of a ThreadInfo is written after it was built",
+              "a ThreadInfo is modified after the registers were captured: %s" % "; ".join(late[:3]))
     pk = list(b.calls(lambda c: (c.short or "").endswith("ThreadInfoX86::peek_user")))
     ctx.floor(R, "peek_user (debug registers) call", len(pk), 1)
     for x, t in pk:
